@@ -172,6 +172,10 @@ def _perturb(name, base, b, rng):
       arr[w] = base[0] * fac
       if not np.any(base[0] != 0) and name.split("_")[-1] in ("margin", "gap", "frictionloss", "damping", "armature", "stiffness", "gravcomp", "density", "viscosity", "adhesion"):
         arr[w] = rng.uniform(0.001, 0.02, size=base[0].shape).astype(base.dtype)  # all-zero field: small positive values
+      if name.split("_")[-1] in ("margin", "gap") and w % 2 == 1:
+        # detection distances: also values far above world 0's, so that pairs exist which only this world's row brings
+        # into the broadphase / narrowphase (a stage reading another world's row then loses or invents contacts)
+        arr[w] = (arr[w] + rng.uniform(0.0, 0.25, size=base[0].shape) * (rng.random(base[0].shape) < 0.7)).astype(base.dtype)
       if "quat" in name:
         q = base[0].reshape(-1, 4) + rng.normal(size=base[0].reshape(-1, 4).shape).astype(base.dtype) * 0.3
         q /= np.linalg.norm(q, axis=-1, keepdims=True)
